@@ -1160,20 +1160,53 @@ void e2e_case(Choices& c, Report& r)
     sinks.push_back(over_sink);
   }
 
-  auto spec_any = [&](int a) { return p.spec_on(a) || (want_override && op.spec_on(a)); };
-  auto spec_any_mask = [&](uint32_t m) { return p.spec_on_any(m) || (want_override && op.spec_on_any(m)); };
+  // ---- a second logger on the same sinks: the same options (the backend shares one formatter between loggers whose
+  // options compare equal), or options that differ from the first logger's in exactly ONE field -- then nothing may be
+  // shared and each logger's statements follow its own pattern / time format / zone / multi-line flag ----
+  bool const two_loggers = chance(c, 1, 3);
+  Pattern pl[2] = {p, p};
+  TsPat const* tpl[2] = {&tp, &tp};
+  bool gmtl[2] = {gmt, gmt};
+  bool multil[2] = {multi, multi};
+  char const* second_diff = "same options";
+  if (two_loggers)
+  {
+    switch (c.weighted({3, 3, 2, 2, 2}))
+    {
+    case 0: break;
+    case 1: multil[1] = !multi; second_diff = "multi-line flag differs"; r.label("second_logger_differs_in_multi_line_flag"); break;
+    case 2: gmtl[1] = !gmt; second_diff = "time zone differs"; r.label("second_logger_differs_in_time_zone"); break;
+    case 3:
+    {
+      TsPat const& other = kTsPats[c.pick(kNTsPats)];
+      if (other.full != tp.full) { tpl[1] = &other; second_diff = "timestamp pattern differs"; r.label("second_logger_differs_in_timestamp_pattern"); }
+      break;
+    }
+    default:
+    {
+      Pattern q = gen_pattern(c, must);
+      if (q.text != p.text) { pl[1] = q; second_diff = "format pattern differs"; r.label("second_logger_differs_in_format_pattern"); }
+      break;
+    }
+    }
+  }
+  quill::PatternFormatterOptions const pfo1{pl[1].text, tpl[1]->full, gmtl[1] ? quill::Timezone::GmtTime : quill::Timezone::LocalTime, multil[1]};
+
+  auto spec_any = [&](int a) { return p.spec_on(a) || pl[1].spec_on(a) || (want_override && op.spec_on(a)); };
+  auto spec_any_mask = [&](uint32_t m) { return p.spec_on_any(m) || pl[1].spec_on_any(m) || (want_override && op.spec_on_any(m)); };
 
   // ---- loggers ----
   std::string name0 = printable_text(c, spec_any(A_LOGGER));
   if (name0.empty()) name0 = "root";
-  bool const two_loggers = chance(c, 1, 4);
   std::string const name1 = name0 + "#2";
   r.line("e2e pattern=\"" + esc(p.text, 300) + "\" ts=\"" + tp.full + "\" " + (gmt ? "GMT" : "Local") +
-         (multi ? " multi=on" : " multi=off") + " logger=\"" + esc(name0, 40) + "\"" + (two_loggers ? " (+second logger)" : ""));
+         (multi ? " multi=on" : " multi=off") + " logger=\"" + esc(name0, 40) + "\"" + (two_loggers ? std::string{" (+second logger: "} + second_diff + ")" : std::string{}));
+  if (two_loggers && pl[1].text != p.text) r.line("  second logger pattern=\"" + esc(pl[1].text, 300) + "\"");
+  if (two_loggers && tpl[1] != &tp) r.line(std::string{"  second logger ts=\""} + tpl[1]->full + "\"");
   if (want_override) r.line(std::string{"  override sink pattern=\""} + esc(op.text, 300) + "\" ts=\"" + otp->full + "\"" + (want_plain ? " (plus plain sink)" : ""));
   note_pattern_labels(r, p);
   if (!multi) r.label("flag_off");
-  if (two_loggers) r.label("two_loggers_shared_options");
+  if (two_loggers) r.label(std::string{second_diff} == "same options" ? "two_loggers_shared_options" : "two_loggers_options_differ_in_one_field");
 
   if (quill::Frontend::get_number_of_loggers() != 0)
   {
@@ -1190,7 +1223,7 @@ void e2e_case(Choices& c, Report& r)
   try
   {
     loggers[0] = quill::Frontend::create_or_get_logger(name0, sinks, pfo, quill::ClockSourceType::User, &g_clock);
-    if (two_loggers) loggers[1] = quill::Frontend::create_or_get_logger(name1, sinks, pfo, quill::ClockSourceType::User, &g_clock);
+    if (two_loggers) loggers[1] = quill::Frontend::create_or_get_logger(name1, sinks, pfo1, quill::ClockSourceType::User, &g_clock);
   }
   catch (std::exception const& e)
   {
@@ -1387,7 +1420,7 @@ void e2e_case(Choices& c, Report& r)
     }
 
     e.v[A_NAMED_ARGS] = e.has_named ? join_named(e.na) : std::string{};
-    if (multi && !e.has_named) e.lines = ref_split(message);
+    if (multil[e.logger_idx] && !e.has_named) e.lines = ref_split(message);
     else e.lines.push_back(ref_trim_one_newline(message));
     size_t const n_msg_lines = ref_split(message).size();
     if (n_msg_lines >= 2) { any_multi_line = true; r.label("multi_line"); }
@@ -1414,12 +1447,16 @@ void e2e_case(Choices& c, Report& r)
   r.nontrivial = (p.n_attr >= 3 && p.order_differs) || p.with_spec != 0 || any_multi_line;
 
   // ---- compare ----
-  auto check_sink = [&](RecordingSink const& sk, Pattern const& sp, TsPat const& stp, bool sgmt, char const* which)
+  auto check_sink = [&](RecordingSink const& sk, bool is_override, char const* which)
   {
     size_t idx = 0;
     for (size_t s = 0; s < exps.size(); ++s)
     {
       ExpStmt const& e = exps[s];
+      // the plain sink gets the statement as formatted by ITS logger's options
+      Pattern const& sp = is_override ? op : pl[e.logger_idx];
+      TsPat const& stp = is_override ? *otp : *tpl[e.logger_idx];
+      bool const sgmt = is_override ? ogmt : gmtl[e.logger_idx];
       for (size_t l = 0; l < e.lines.size(); ++l, ++idx)
       {
         std::string const where = std::string{which} + " sink, statement #" + std::to_string(s) + " line " +
@@ -1473,8 +1510,8 @@ void e2e_case(Choices& c, Report& r)
       r.fail(std::string{which} + " sink received " + std::to_string(sk.recs.size()) + " write_log calls, expected " +
              std::to_string(idx) + "; first extra log_message \"" + esc(sk.recs[idx].msg, 80) + "\"");
   };
-  if (plain_sink) check_sink(*plain_sink, p, tp, gmt, "plain");
-  if (over_sink && !r.failed) check_sink(*over_sink, op, *otp, ogmt, "override");
+  if (plain_sink) check_sink(*plain_sink, false, "plain");
+  if (over_sink && !r.failed) check_sink(*over_sink, true, "override");
   if (!g_errors.empty() && !r.failed) r.fail("backend error notifier was called: " + esc(g_errors[0], 300));
 
   // ---- remove the loggers again, wait until they are gone ----
